@@ -29,3 +29,10 @@ CHECKS["C18"] = dict(
     design_ref="DESIGN.md 3 C18",
     note="Reference definitions in refs/strfuncs.py are the oracle; set() inside parserfns is stubbed for the formatnum conditions; #titleparts region of the recorded finding is excluded; #expr precedence only in the thorough tier; urlencode not covered.",
 )
+CHECKS["C05"] = dict(
+    engine="E1 CrossHair; E3 AST path encoder + z3",
+    technique="CrossHair symbolic execution of every parser-function implementation with symbolic Unicode arguments (exceptions = counterexamples); z3 dominance queries over the AST for the depth guard, the namespace-table lookups and the #expr exception barrier; CrossHair case split for the loop detector",
+    text="Totality of the parser functions is explored symbolically for 0..3 arguments of up to 2 Unicode characters each, with an identity and with an arbitrary expander (about half of the conditions are confirmed over all paths, the rest explored without counterexample); the template-depth guard dominates every recursive expansion on every syntactic path (z3, unbounded); namespace lookups with computed keys are dominated by membership tests; #expr's evaluator and result conversion are inside an exception barrier covering ValueError/ArithmeticError/TypeError; the loop detector equals its specification for all stacks of up to 5 entries. Termination of expand() for every template graph is NOT claimed.",
+    design_ref="DESIGN.md 3 C05",
+    note="Page store stubbed to 'absent' in the totality harness; functions behind network/clock/dateparser are excluded (listed in evidence); floats are reals in CrossHair; replays go through Wtp.expand or call_parser_function.",
+)
